@@ -204,7 +204,7 @@ class SharedTracedFile(TracedFile):
 class TraceFS(AbstractFileSystem):
     protocol = "vtrace"
     root_marker = "/"
-    cachable = False
+    cachable = True  # like most fsspec filesystems: one instance per (protocol, options) -- code keyed on the instance sees ONE filesystem
 
     @classmethod
     def _strip_protocol(cls, path):
